@@ -485,5 +485,5 @@ func TestC20(t *testing.T) {
 		"server: a header list built from a well-formed base (pseudo-headers in any order, 0..6 regular fields incl. cookies/te: trailers, optional content-length, body 0..300, optional trailers) with 0..2 mutations from a catalogue (mandatory pseudo-header dropped/duplicated/empty :path, pseudo after regular, :status or unknown pseudo, upper-case name, connection-specific field, te other than trailers, content-length smaller/larger/non-numeric/signed/empty/2^64+n/leading zeros/hex/trailing space, malformed trailers, repeated regular fields), placed among 0..2 plain requests before and after on the same connection, header block optionally split; oracle = RFC 7540 8.1.2 predicate (DESIGN appendix B): handler runs iff well-formed, otherwise RST_STREAM(PROTOCOL_ERROR) or a 4xx on that stream only, neighbours served intact, no GOAWAY. Non-trivial = list with exactly one rule broken, or a well-formed list with a repeated field or trailers; distinct by case hash.",
 		"CONNECT, '*' paths, characters outside token/field-value, empty names and duplicated content-length are not generated (RFC 7540 does not fix their treatment)", "the body of a request already refused at header time is not sent (frames in flight after the server's RST are C09's subject)")
 	defer s.finish()
-	runLane(s, Lane[c20Case]{Name: "server", Quick: 4000, Thor: 600000, Gen: c20Gen, Run: c20Run})
+	runLane(s, Lane[c20Case]{Name: "server", Journal: true, Quick: 4000, Thor: 600000, Gen: c20Gen, Run: c20Run})
 }
